@@ -205,7 +205,7 @@ func c19Spelling(t *sim.Tape, p string) string {
 		s = "/../" + s
 	}
 	// the unclean part may also be only the tail
-	switch t.Choose(6) {
+	switch t.Choose(7) {
 	case 1:
 		s += "/"
 	case 2:
@@ -214,6 +214,9 @@ func c19Spelling(t *sim.Tape, p string) string {
 		s += "/zz/.."
 	case 4:
 		s = "/" + strings.Join(segs, "/") + []string{"/", "/.", "/q/..", "//"}[t.Choose(4)]
+	case 5:
+		// relative spellings that climb above the root (clamped there)
+		s = []string{"../", "../../", "a/../../", "./../"}[t.Choose(4)] + strings.Join(segs, "/")
 	}
 	return s
 }
